@@ -212,7 +212,7 @@ def replay_family(rep, path, run):
 RULE = ("18 element types (basics incl. +0/-0 floats, bool and complex128, named basics incl. a named bool, comparable struct, pointers to structs incl. recursive and "
         "imported, slices, struct with pointers; more on thorough) and 6 key types x a boundary-biased list pool per type "
         "(nil, empty, singleton, duplicates fresh and aliased, both orders of pairs, all 6 orders of triples, Equal-but-not-identical "
-        "variants, whole pool / reversed / sorted / reverse-sorted, nil elements, seeded random lists up to length 6 (10 thorough)); "
+        "variants, whole pool / reversed / sorted / reverse-sorted, nil elements, seeded random lists up to length 7 (12 thorough)); "
         "sort on every list, min/max on every list with two defaults, min2/max2 on all ordered pool pairs and identity variants, keys on "
         "nil/empty/singleton/both-insertion-order/larger maps; distinct = distinct op lines whose containers hold >= 2 elements in "
         "total (two-value forms: the arguments differ)")
